@@ -1079,9 +1079,30 @@ def iter_adapt(eng, st, site, func, target, args, dty):
     return [(st, VIter(target["name"].split("::")[-1], None, 0, args[0], args[1]))]
 
 
+def _has_mut_capture(eng, st, clo):
+    """does this closure capture something by mutable reference (so that running it has effects)?"""
+    if isinstance(clo, VRef):
+        clo = eng.load(st, clo.cell, clo.path)
+    if not isinstance(clo, VClosure):
+        return False
+    for u in clo.upvars:
+        if isinstance(u, VRef) and u.mut:
+            return True
+        if isinstance(u, VClosure) and _has_mut_capture(eng, st, u):
+            return True
+    return False
+
+
 @stub(r"^std::iter::Iterator::collect$")
 def iter_collect(eng, st, site, func, target, args, dty):
     it = args[0]
+    if isinstance(it, VIter) and it.kind in ("filter_map", "map", "filter") and it.extra is not None and _has_mut_capture(eng, st, it.extra) \
+            and (dty is None or eng.T(dty).get("name") == "std::vec::Vec"):
+        # an adaptor closure with side effects (e.g. it pushes the rejected items elsewhere): analyse the collection as
+        # the loop it is, one element per iteration
+        if it.kind == "filter_map":
+            return eng.call_local(st, site, "synth::collect_filter_map", [it.src, it.extra], tag="collect")
+        return eng.call_local(st, site, "synth::collect", [it], tag="collect")
     bound = None
     src_cell = None
     if isinstance(it, VIter) and it.extra is not None:
